@@ -18,7 +18,15 @@ Inductive op :=
 | OInt (val : N)                          (* cur = bitset(val) *)
 | OStr (str : list N) (pos : nat) (n : N) (zero one : N)   (* cur = bitset(str, pos, n, zero, one) *)
 | OSwap                                   (* exchange the roles of the two registers *)
-| OTest (pos : nat).                      (* queries: test(pos), const [](pos), bool(cur[pos]), ~cur[pos] *)
+| OTest (pos : nat)                       (* queries: test(pos), const [](pos), bool(cur[pos]), ~cur[pos] *)
+(* aliasing: both operands are the SAME object (added by the review, see props/C17/REVIEW.md) *)
+| ORefCopySelf (pos src : nat)            (* cur[pos] = cur[src]   (two proxies into one object; pos = src: the same bit) *)
+| OAndSelf | OOrSelf | OXorSelf           (* cur &= cur, cur |= cur, cur ^= cur *)
+(* bitset(char const* str, n, zero, one).  [str] = the characters of the array in front of its terminating
+   NUL (the array is str ++ [0]); counted = true: n = length str (characters behind the first n are never
+   read, so this is every call with n <> npos up to the unread tail); counted = false: n = npos, the
+   string ends at its first NUL character (characters behind it are never read) *)
+| OCStr (str : list N) (counted : bool) (zero one : N).
 
 (* what is observed after every step of a history: to_string('0','1'), count, all, any, none,
    to_ullong/to_ulong (None when Bits > 64: not instantiable in etl), current == other *)
